@@ -20,7 +20,7 @@ def RULE(tier):
         "harness. Actions: application send on either side (unique payload; accepted iff send_msg returns), deliver the next "
         "in-flight frame in either direction (or all in-flight frames of one direction coalesced into one read), break the connection (everything in flight lost; each end sees EOF / "
         "ConnectionResetError on read / OSError on read / a failing drain), reconnect (real connect() / _handle_accept() over "
-        f"fresh streams + Logon), and (walks and fixed sequences only) arming a side's on_message to raise once after it recorded the message. Bounded-exhaustive DFS over all action sequences up to depth {b['depth']} with <= {b['sends']} sends "
+        f"fresh streams + Logon), and (walks and fixed sequences only) a keep-alive probe (TestRequest, answered by the peer's Heartbeat) and arming a side's on_message to raise once after it recorded the message. Bounded-exhaustive DFS over all action sequences up to depth {b['depth']} with <= {b['sends']} sends "
         f"and <= {b['breaks']} breaks of kinds {b['kinds']} (each sequence re-executed from scratch, deduplicated by a hash of both "
         f"state enums, the four counters, both journals, FIFO contents and delivery counts), plus Hypothesis walks up to {WALK[tier]} "
         "actions with all break kinds. Every explored sequence is closed (deliver all, watchdog for an end that has not noticed, "
@@ -76,6 +76,10 @@ def apply(d, a, flags):
     elif a[0] == "reconnect":
         d.reconnect()
         flags.add("reconnect")
+    elif a[0] == "testreq":
+        if d.connected(a[1]) and d.link_alive():
+            d.send_test_req(a[1])
+            flags.add("keep-alive-traffic")
     elif a[0] == "arm":
         d.ep[a[1]].raise_next += 1
         flags.add("handler-raises")
@@ -194,6 +198,8 @@ def run_walk(acc, steps):
             cat = ["send", "deliver", "deliver_all", "break", "reconnect", "send", "deliver", "any"][choice % 8]
             if choice % 41 == 0:
                 acts = [("arm", "c"), ("arm", "s")]
+            elif choice % 37 == 0:
+                acts = [("testreq", "c"), ("testreq", "s")]
             pool = [a for a in acts if a[0] == cat] or ([a for a in acts if a[0] == "deliver"] if cat == "deliver_all" else []) or ([a for a in acts if a[0] == "reconnect"] if choice % 3 == 0 else []) or acts
             if not pool:
                 break
@@ -219,6 +225,7 @@ FIXED = [
     [("send", "c"), ("send", "c"), ("send", "c"), ("arm", "s"), ("deliver", "c"), ("deliver", "c"), ("deliver", "c"), ("break", "eof"), ("reconnect",), ("send", "c")],
     [("send", "s"), ("arm", "c"), ("deliver", "s"), ("send", "s"), ("break", "eof"), ("reconnect",), ("arm", "c"), ("send", "s")],
     [("arm", "s"), ("send", "c"), ("send", "c"), ("deliver_all", "c"), ("send", "c"), ("deliver", "c")],
+    [("send", "c"), ("testreq", "s"), ("send", "c"), ("break", "eof"), ("reconnect",), ("testreq", "c"), ("send", "s")],
 ]
 
 
